@@ -234,6 +234,8 @@ SPLITS = [("--", ">"), ("-", "->"), ("x--", "> y"), ("-", "-", ">"), ("&", "amp;
 def directed_doc(index):
   """markup-significant character sequences split over ADJACENT text nodes (no tag or line break between them in the output when
   the spans are unstyled): `--` + `>`, `&` + `amp;`, `<` + `b>`, LF + LF ...; three layouts per split"""
+  if index >= N_SPLITS:
+    return EXTRA_DIRECTED[index - N_SPLITS]()
   parts = SPLITS[index % len(SPLITS)]
   layout = (index // len(SPLITS)) % 3
   doc = m.ContentDocument()
@@ -268,7 +270,31 @@ def directed_doc(index):
   return doc
 
 
-N_DIRECTED = 3 * len(SPLITS)
+def _anim_doc(prop_value, begin):
+  """p [begin, 10) with a <set> on the paragraph itself over [1, 2) of ITS OWN time line (display none or a colour)"""
+  doc = m.ContentDocument()
+  reg = m.Region("r1", doc)
+  doc.put_region(reg)
+  body = m.Body(doc)
+  doc.set_body(body)
+  div = m.Div(doc)
+  body.push_child(div)
+  p = m.P(doc)
+  p.set_region(reg)
+  p.set_begin(begin)
+  p.set_end(Fraction(10))
+  p.add_animation_step(m.DiscreteAnimationStep(prop_value[0], Fraction(1), Fraction(2), prop_value[1]))
+  div.push_child(p)
+  sp_ = m.Span(doc)
+  sp_.push_child(m.Text(doc, "hello"))
+  p.push_child(sp_)
+  return doc
+
+
+EXTRA_DIRECTED = [lambda: _anim_doc((SP.Display, sp.DisplayType.none), Fraction(5)), lambda: _anim_doc((SP.Color, sp.NamedColors.red.value), Fraction(5)),
+                  lambda: _anim_doc((SP.Display, sp.DisplayType.none), Fraction(0)), lambda: _anim_doc((SP.FontWeight, sp.FontWeightType.bold), Fraction(3))]
+N_SPLITS = 3 * len(SPLITS)
+N_DIRECTED = N_SPLITS + len(EXTRA_DIRECTED)
 
 
 def gen_doc(info):
@@ -896,6 +922,10 @@ PROP, QUICK, SEED = "C06", True, 0
 
 
 def check_doc(rec, prop, doc, info, cfg_names):
+  return check_doc_on(rec, prop, doc, info, cfg_names)
+
+
+def check_doc_on(rec, prop, doc, info, cfg_names):
   ref = Ref(doc)
   if ref.intervals("base") is None:
     return "outside"
@@ -914,11 +944,45 @@ def check_doc(rec, prop, doc, info, cfg_names):
       continue
     rec.evaluated(contract, hash((info, cfg_name)), None)
     cues, problems, _ = read_output(cfg_name, text)
+    sub = Recorder(prop, "", {})
     if prop == "C06":
-      check_c06_output(rec, ref, info, cfg_name, cues, problems, text)
+      check_c06_output(sub, ref, info, cfg_name, cues, problems, text)
     else:
-      check_c07_output(rec, ref, info, cfg_name, text, cues, problems)
+      check_c07_output(sub, ref, info, cfg_name, text, cues, problems)
+    if sub.failures and _classify and _passes_without_offset_steps(prop, info, cfg_name):
+      # witness class of the known sig-times defect (animation steps of an element with a non-zero begin are resolved against the
+      # parent's interval, known_findings.txt C02): the same document without those steps satisfies every contract
+      for k in list(sub.failures):
+        v = sub.failures.pop(k)
+        v["key"] = k + ":animation-step-boundary"
+        sub.failures[k + ":animation-step-boundary"] = v
+    rec.merge(sub)
   return "ok"
+
+
+_classify = True
+
+
+def _passes_without_offset_steps(prop, info, cfg_name):
+  global _classify
+  doc = gen_doc(tuple(info))
+  n = 0
+  for e in docgen.all_elements(doc):
+    if not isinstance(e, (m.Text, m.Region)) and e.get_begin() not in (None, 0):
+      for st in list(e.iter_animation_steps()):
+        e.remove_animation_step(st)
+        n += 1
+  if n == 0:
+    return False
+  rec2 = Recorder(prop, "", {})
+  _classify = False
+  try:
+    check_doc_on(rec2, prop, doc, info, [cfg_name])
+  except Exception:  # pylint: disable=broad-except
+    return False
+  finally:
+    _classify = True
+  return not rec2.failures
 
 
 def configs_for(r, quick):
@@ -948,7 +1012,7 @@ def units_job(job):
   rec = Recorder(prop, "", {})
   if part == "directed":
     for index in range(N_DIRECTED):
-      joined = "".join(SPLITS[index % len(SPLITS)])
+      joined = "".join(SPLITS[index % len(SPLITS)]) if index < N_SPLITS else ""
       # SubRip has no escape mechanism: text that spells a tag IS a tag there, so those splits go to the WebVTT writer only
       names = list(VTT_CONFIGS) if joined in ("<b>", "</b>", "{b}") else list(ALL_CONFIGS)
       check_doc(rec, prop, directed_doc(index), (seed, 0, index, "directed"), names)
